@@ -102,3 +102,18 @@ def check_standardize_uri(cx: Cx, ob: Ob) -> None:
 @obligation("C03-L6", "no converter state exists that _index does not maintain; query methods write no state (expand's output stays compressible after incremental additions)", floor=5)
 def l6(cx: Cx, ob: Ob) -> None:
     state_closure(cx, ob)
+
+
+
+@obligation("C03-X1", "OWN (shared with C10): no function that takes a converter stores into, mutates or captures the Record objects of its input - a converter whose records are changed behind its back no longer matches its own lookup tables", floor=6)
+def x1(cx: Cx, ob: Ob) -> None:
+    from .c10 import check_no_aliasing
+
+    check_no_aliasing(cx, ob)
+
+
+@obligation("C03-X3", "no memoised derived values (cached_property / lru_cache) on Record, Reference or Converter objects, which are changed in place or copied with updates", floor=3)
+def x3(cx: Cx, ob: Ob) -> None:
+    from ..rules import cached_derivations
+
+    cached_derivations(cx, ob)
